@@ -1,8 +1,67 @@
-"""Precondition vocabulary (DESIGN 2.3): documented structural rules attached to kernel arguments by name."""
+"""Precondition vocabulary (DESIGN 2.3): the documented structural rules of docs-sphinx/ak.layout.*.rst,
+stated once in z3 and attached to kernel arguments by name for the generic C13 harness.
+
+Every rule is the reference constructor's assertion, nothing stronger:
+  ListArray / ListOffsetArray:  start == stop  or  (0 <= start < stop <= len(content))
+  IndexedArray:                 0 <= index < len(content);  IndexedOptionArray: index < len(content)
+  UnionArray:                   0 <= tag < len(contents), 0 <= index < len(contents[tag])
+  RegularArray:                 size >= 0
+Lengths and sizes are non-negative and below 2**40 (a stated bound, not a documented rule).
+"""
 import re
 import z3
 
+BIG = 1 << 40
 
-def for_spec(ctx, sp, N):
-    prem = []
-    return prem
+
+def list_rule(start, stop, lencontent=None):
+    ok = z3.And(start >= 0, start < stop)
+    if lencontent is not None:
+        ok = z3.And(ok, stop <= lencontent)
+    return z3.Or(start == stop, ok)
+
+
+LENGTHLIKE = re.compile(r'^(len\w*|\w*length|\w*len|\w*size|size|n|maxcount|numcontents|ndim|width|fromwidth|repetitions|'
+                        r'maxlevels|carrylen|nextlen|lencontent)$')
+NOT_LENGTH = {'n': False}
+
+
+def is_lengthlike(name):
+    return bool(LENGTHLIKE.match(name))
+
+
+PAIRS = [('fromstarts', 'fromstops'), ('starts', 'stops'), ('slicestarts', 'slicestops'), ('starts_in', 'stops_in'),
+         ('multistarts', 'multistops'), ('stringstarts', 'stringstops'), ('tmpbeg', 'tmpend')]
+
+
+def for_spec(ctx, sp, N, spec=None, pmap=None):
+    """premises for one specialization; returns (list of z3 Bool, list of human-readable rule names)"""
+    prem, names = [], []
+    argn = {a.name: a for a in sp.args}
+    lencontent = None
+    if 'lencontent' in argn and argn['lencontent'].depth == 0:
+        from .kharness import widen
+        lencontent = widen(ctx.scalars['lencontent'][0], True)
+    # scalars
+    for a in sp.args:
+        if a.depth == 0 and a.kind == 'i' and is_lengthlike(a.name):
+            v = ctx.scalars[a.name][0]
+            from .kharness import widen
+            w = widen(v, a.signed)
+            prem.append(z3.And(w >= 0, w <= BIG))
+            names.append('0 <= %s <= 2^40' % a.name)
+    # starts/stops pairs
+    for s_, e_ in PAIRS:
+        if s_ in argn and e_ in argn and argn[s_].depth == 1 and argn[e_].depth == 1 and argn[s_].dir != 'out':
+            for k in range(N + 2):
+                inb = z3.And(k < ctx.arrays[s_].cap, k < ctx.arrays[e_].cap)
+                prem.append(z3.Implies(inb, list_rule(ctx.init(s_, k), ctx.init(e_, k))))
+            names.append('ListArray rule on (%s[i], %s[i])' % (s_, e_))
+    # offsets
+    for a in sp.args:
+        if a.depth == 1 and a.dir != 'out' and a.kind == 'i' and re.search(r'offsets', a.name) and a.name != 'offsetsraws':
+            for k in range(N + 2):
+                inb = k + 1 < ctx.arrays[a.name].cap
+                prem.append(z3.Implies(inb, list_rule(ctx.init(a.name, k), ctx.init(a.name, k + 1))))
+            names.append('ListOffsetArray rule on consecutive %s' % a.name)
+    return prem, names
